@@ -104,9 +104,15 @@ class Runner:
         self.writer = stores.writer_conn(self.ds)
         self.skipped = 0
         self.stale = {}  # bucket name -> Bucket handle obtained while it existed
+        self.side = None  # a second store on another file (operation "elsewhere")
 
     def close(self):
         stores.close_store(self.ds)
+        if self.side is not None:
+            stores.close_store(self.side)
+            from . import env as _env
+
+            _env.rm(self.path + ".side")
 
     def dump(self):
         return stores.raw_dump(self.writer)
@@ -189,6 +195,20 @@ class Runner:
                     ds[name].insert(_spec_event(Event, 1, 1, "z"))
                 else:
                     ds[name].replace_last(Event(timestamp=gen.dt_utc(top), duration=timedelta(seconds=op.get("dur_s", 1)), data={"l": "h"}))
+            elif kind == "elsewhere":
+                # another store of the same kind, alive in the same process on another file, is read and written (a read makes it
+                # commit): nothing about the store under observation may depend on it. Reported to the hooks as a read: the
+                # writer's view must be unchanged
+                done = "read"
+                if self.backend == "sqlite":
+                    if self.side is None:
+                        self.side = stores.open_store("sqlite", self.path + ".side")
+                        stores.create_bucket(self.side, "side")
+                    sb = self.side["side"]
+                    sb.get(limit=1)
+                    sb.insert(_spec_event(Event, op.get("v", 0) % 50, 1, "s"))
+                    if op.get("v", 0) % 2:
+                        sb.get_eventcount()
             elif kind == "read":
                 done = "read"
                 b = ds[name]
@@ -232,7 +252,8 @@ def history_strategy(max_ops=60, with_reads=True, max_bulk=130):
     rejected = st.fixed_dictionaries({"op": st.sampled_from(["delete_missing", "bulk_stale", "bulk_stale"]), "b": b, "v": st.integers(0, 9)})
     backlog = st.fixed_dictionaries({"op": st.just("backlog_then_bucket_op"), "b": b, "b2": b, "n": st.sampled_from([48, 49, 50, 50, 51]), "then": st.sampled_from(["delete_bucket", "delete_bucket", "update_bucket", "create_bucket"]), "v": st.integers(0, 9)})
     big = st.fixed_dictionaries({"op": st.just("big_bucket_delete"), "b": b, "n": st.sampled_from([1001, 1100, 2100]), "v": st.integers(0, 99)})
-    parts = [single, single, single, single, single, single, bulk, delrun, bucket, rejected, backlog, hbrun] * 3 + [big]
+    elsewhere = st.fixed_dictionaries({"op": st.just("elsewhere"), "b": b, "v": st.integers(0, 9)})
+    parts = [single, single, single, single, single, single, bulk, delrun, bucket, rejected, backlog, hbrun] * 3 + [big, elsewhere, elsewhere, elsewhere]
     if with_reads:
         parts.append(read)
     return st.lists(st.one_of(*parts), min_size=5, max_size=max_ops)
